@@ -25,9 +25,22 @@
     is assumed.  With rejection (user constraints), [accept_complete] says that the
     key of every valid sequence passes the rejection test.  Note that for weighted levels of factors outside every crossing
     the library itself documents a multiplicity > 1 per name-level sequence
-    ([designrun.name_multiplicity]); such designs are outside [frag1]. *)
+    ([designrun.name_multiplicity]); the theorems compare level INDEX sequences
+    (the reference semantics [code_sem]), not names.
+
+    [_frag2]: the same with weights ([Frag.frag2], see Properties/C04.v): the
+    order of a round is then a word with bounded repetitions, the bijection is
+    [C13_prefix_copies_bij] and the model's memoised unranker is tied to it by
+    [C13_stack_count_refines] / [C13_stack_unrank_refines] / [C13_count_dispatch_refines]
+    - which hold whenever that unranker returns (its explicit stack runs on
+    fuel).  Injectivity and distinctness need nothing more: no key is drawn
+    when the model returns an error value.  [accept_complete] is stated for the
+    designs on which the enumerator and its key list are defined
+    ([FragSem.enumerates], decidable: [enumerates_b]); without weights this
+    always holds ([C05_enumerates_unweighted]), with weights it is evaluated on
+    every generated design by the correspondence run (layer L8-theorem-statements). *)
 From Coq Require Import List.
-From SP Require Import Design.Flat Design.Sem Random.Enum Random.Frag Random.FragSem Random.Frag1Thms
+From SP Require Import Design.Flat Design.Sem Random.Enum Random.Frag Random.FragSem Random.Frag2Thms Random.Frag1Thms
   Random.Frag0Example.
 
 Theorem C05_cand_inj_partial : forall (fb : flat), frag1 fb = true ->
@@ -64,4 +77,40 @@ Example C05_example_rejection :
 Proof.
   split; [apply ex1_frag|]. split; [apply ex1_frag|]. split; [apply ex1_keys|]. split; [apply ex1_keys|].
   split; apply ex1_checks.
+Qed.
+
+(** with weights (fragment [Frag.frag2]) *)
+Theorem C05_cand_inj_frag2 : forall (fb : flat), frag2 fb = true ->
+  forall (k1 k2 : key) (c1 c2 : candidate),
+  In k1 (keys_of fb) -> In k2 (keys_of fb) ->
+  decode_key fb k1 = Some c1 -> decode_key fb k2 = Some c2 ->
+  tseq_of_run fb c1 = tseq_of_run fb c2 -> k1 = k2.
+Proof. exact f2_cand_inj. Qed.
+Print Assumptions C05_cand_inj_frag2.
+
+Theorem C05_keys_nodup_frag2 : forall (fb : flat), frag2 fb = true -> NoDup (keys_of fb).
+Proof. exact f2_keys_nodup. Qed.
+Print Assumptions C05_keys_nodup_frag2.
+
+Theorem C05_accept_complete_frag2 : forall (fb : flat), frag2 fb = true ->
+  forall (s : tseq), enumerates fb -> fl_errors_fail fb = false -> valid_b (code_sem fb) s = true ->
+  exists (k : key) (cand : candidate),
+    In k (keys_of fb) /\ decode_key fb k = Some cand /\ accepts fb cand = true /\ tseq_of_run fb cand = s.
+Proof. exact f2_accept_complete. Qed.
+Print Assumptions C05_accept_complete_frag2.
+
+(** without weights the side condition always holds *)
+Theorem C05_enumerates_unweighted : forall (fb : flat), frag1 fb = true -> enumerates fb.
+Proof. exact f1_enumerates. Qed.
+Print Assumptions C05_enumerates_unweighted.
+Theorem C05_enumerates_decidable : forall (fb : flat), enumerates_b fb = true -> enumerates fb.
+Proof. exact enumerates_b_spec. Qed.
+Print Assumptions C05_enumerates_decidable.
+
+Example C05_example_weighted :
+  frag2 ex3_flat = true /\ frag1 ex3_flat = false /\ enumerates_b ex3_flat = true /\ length (accepted_keys ex3_flat) = 32 /\
+  length (all_valid (code_sem ex3_flat)) = 32 /\ check_inj ex3_flat = true /\ check_complete ex3_flat = true.
+Proof.
+  split; [apply ex3_frag|]. split; [apply ex3_frag|]. split; [apply ex3_frag|]. split; [apply ex3_keys|]. split; [apply ex3_keys|].
+  split; apply ex3_checks.
 Qed.
